@@ -81,10 +81,19 @@ package dns
 
 // the out-of-band data of a datagram (the local address the reply must leave from) belongs to its session alone: it is
 // allocated per read and never handed to a pool, so a handler's later writes leave from its own request's address
-//@ func ReadFromSessionUDP [C12]
+//@ func ReadFromSessionUDP [C12 C14:errs]
 //@   opt no-safety
 //@   exit ownoob: !called("Get") && !called("Put")
 //@   exit freshoob: ret2 == nil ==> ret1 != nil && fresh(ret1.context)
+// reading a datagram fails only when the socket read fails (a datagram larger than the buffer is cut, not an error that
+// would end the serve loop)
+//@   exit errs: ret2 != nil ==> ret2 == callres("ReadMsgUDP", 4) [C14]
 //@ func WriteToSessionUDP [C12]
 //@   opt no-safety
 //@   exit keepoob: !called("Put")
+
+// the TCP reader hands on exactly one framed read of the connection (an empty frame is a message: it is for serveDNS
+// to report it)
+//@ func (defaultReader).ReadTCP [C14 C12]
+//@   opt no-safety
+//@   exit once: same(ret0, callres("readTCP", 0)) && ret1 == callres("readTCP", 1)
